@@ -84,7 +84,7 @@ class Machine:
         self.nondets = {}         # id -> term
         self.ranges = {}
         self.unwound = []         # (guard, where)
-        self.unwind = unwind; self.unwind_map = unwind_map or {}
+        self.unwind = unwind; self.unwind_map = unwind_map or {}; self._unwind_cache = {}
         self.verbose = verbose
         self.max_depth = max_depth
         self.threads = [Thread(i) for i in range(nthreads + 1)]
@@ -697,7 +697,7 @@ class Machine:
             kp.pop()
 
     def _loop(self, fr, L):
-        U = self.unwind_map.get(fr.f.name, self.unwind)
+        U = self._unwind_for(fr.f.name)
         if isinstance(U, dict): U = U.get(L.header, self.unwind)
         kp = self.keypath
         k = 0; ksym = 0; prev = None
@@ -732,6 +732,18 @@ class Machine:
             k += 1
         self.stats['loop_iters'] += k
         if k > 50: self.loop_hot[(fr.f.name[-60:], L.header, self.cur.tid, self.pass_no)] += k
+
+    def _unwind_for(self, fname):
+        """per-function loop bound: exact mangled name, else the first '*substring*' pattern contained in the name"""
+        c = self._unwind_cache.get(fname)
+        if c is None:
+            c = self.unwind_map.get(fname)
+            if c is None:
+                for k, v in self.unwind_map.items():
+                    if k.startswith('*') and k.strip('*') in fname: c = v; break
+            if c is None: c = self.unwind
+            self._unwind_cache[fname] = c
+        return c
 
     def _edge(self, fr, src, dstname, g):
         if g is False: return
